@@ -633,6 +633,12 @@ def ks_getitem(obj, idx):
         for k in range(n - 2, -1, -1):
             r = Ite(i == k, obj[k], r)
         return r
+    if type(obj) is dict and isinstance(idx, (SymInt, SymBool)) and len(obj) <= 64:
+        idx = as_symint(idx)
+        for k in obj:
+            if isinstance(k, int) and idx == k:   # forks per key, like a switch
+                return obj[k]
+        raise KeyError(MARK)
     return obj[idx]
 
 
